@@ -3,6 +3,7 @@
 use crate::engine::Ctx;
 
 pub mod c06;
+pub mod c10;
 pub mod c11;
 pub mod c12;
 pub mod c13;
@@ -12,7 +13,7 @@ pub mod c16;
 pub mod c17;
 pub mod c20;
 
-pub const ALL: &[&str] = &["C06", "C11", "C12", "C13", "C14", "C15", "C16", "C17", "C20"];
+pub const ALL: &[&str] = &["C06", "C10", "C11", "C12", "C13", "C14", "C15", "C16", "C17", "C20"];
 
 pub fn exists(p: &str) -> bool {
     ALL.contains(&p)
@@ -21,6 +22,7 @@ pub fn exists(p: &str) -> bool {
 pub fn run(p: &str, ctx: &mut Ctx) {
     match p {
         "C06" => c06::run(ctx),
+        "C10" => c10::run(ctx),
         "C11" => c11::run(ctx),
         "C12" => c12::run(ctx),
         "C13" => c13::run(ctx),
@@ -37,6 +39,7 @@ pub fn run(p: &str, ctx: &mut Ctx) {
 pub fn meta(p: &str) -> (String, Vec<String>) {
     let (r, a): (&str, &[&str]) = match p {
         "C06" => (c06::RULE, c06::ASSUMPTIONS),
+        "C10" => (c10::RULE, c10::ASSUMPTIONS),
         "C11" => (c11::RULE, c11::ASSUMPTIONS),
         "C12" => (c12::RULE, c12::ASSUMPTIONS),
         "C13" => (c13::RULE, c13::ASSUMPTIONS),
